@@ -3,12 +3,14 @@
 //! the property demands.  A probe never decides a property (DESIGN.md §3.4).
 use serde_json::json;
 
+mod mock;
 mod probes;
 
 fn main() {
 	let name = std::env::args().nth(1).unwrap_or_default();
 	let res = match name.as_str() {
 		"error_code_roundtrip" => probes::error_code_roundtrip(),
+		"client_tables_return_to_empty" => probes::client_tables_return_to_empty(),
 		_ => json!({"probe": name, "error": "unknown probe"}),
 	};
 	println!("{}", res);
